@@ -70,7 +70,7 @@ CLAIMS = {
                 "order (time-only types spanning [0, MAX_FREQUENCY]); compute_bounds is the converted shape's bounds; all 33 Feature "
                 "rows carry the canonical expression their term names over the bounds positions; all 11 named positions evaluate to "
                 "the specified corner/midpoint/centre as (time, frequency). shapely's bounds/centroid/point_on_surface are trusted.",
-        "design_ref": "DESIGN.md section 3, C05 (R05.1-R05.5); delegated validator subset of C03 in section 8.12",
+        "design_ref": "DESIGN.md section 3, C05 (R05.1-R05.5); delegated validator subset of C03 in section 8.12; R05.6 / R05.7 (known findings K04, K05) in section 8.15",
         "note": NOTE_COMMON,
         "technique": "dispatch-table exhaustiveness, canonical-term (value numbering) comparison of every table row and of the position selector under each constant position",
     },
